@@ -84,13 +84,14 @@ def ensure_tool():
         return
     os.makedirs(os.path.dirname(TOOL), exist_ok=True)
     flags = subprocess.check_output(["llvm-config-14", "--cxxflags"], text=True).split()
-    cmd = (["clang++"] + flags + ["-fno-rtti", "-O1", TOOL_SRC, "-o", TOOL + ".tmp",
+    tmp = TOOL + ".tmp%d" % os.getpid()
+    cmd = (["clang++"] + flags + ["-fno-rtti", "-O1", TOOL_SRC, "-o", tmp,
                                   "/usr/lib/llvm-14/lib/libclang-cpp.so.14",
                                   "/usr/lib/llvm-14/lib/libLLVM-14.so"])
     r = subprocess.run(cmd, capture_output=True, text=True)
     if r.returncode != 0:
         raise AnalysisBroken("cannot build celerfacts: " + r.stderr[-2000:])
-    os.replace(TOOL + ".tmp", TOOL)
+    os.replace(tmp, TOOL)
 
 
 _cdb = None
@@ -200,7 +201,8 @@ def extract(units, astre="", witness=None):
         batches = [[] for _ in range(nb)]
         for i, u in enumerate(order):
             batches[i % nb].append(u)
-        cdbdir = os.path.join(d, "cdb")
+        # private to this process: concurrent checks may extract the same key at once
+        cdbdir = os.path.join(d, "cdb-%d" % os.getpid())
         _write_cdb(units, cdbdir, witness)
         jobs = [(i, b, cdbdir, os.path.join(d, "b%d.json" % i), astre)
                 for i, b in enumerate(batches)]
@@ -210,8 +212,11 @@ def extract(units, astre="", witness=None):
             if not os.path.exists(os.path.join(d, "b%d.json" % idx)):
                 raise AnalysisBroken("extractor produced no output for batch %d: %s"
                                      % (idx, err))
-        with open(done, "w") as f:
+        import shutil
+        shutil.rmtree(cdbdir, ignore_errors=True)
+        with open(done + ".%d" % os.getpid(), "w") as f:
             f.write(str(len(batches)))
+        os.replace(done + ".%d" % os.getpid(), done)
     files = sorted(f for f in os.listdir(d) if re.match(r"b\d+\.json$", f))
     return FactBase([os.path.join(d, f) for f in files], units, route,
                     cached=(time.time() - t0 < 0.5), astre=astre)
